@@ -260,6 +260,10 @@ impl Scenario for PairScn {
                 amts.push(a.max(2));
                 amts.push(a.max(2) + a / 50 + 1);
             }
+            // (pools on the scale of 18-decimals assets: a swap of a tenth of the reserve, whose charges exceed 2^64)
+            if res[0].min(res[1]) >= 10u128.pow(20) {
+                amts.push(res[0].min(res[1]) / 10);
+            }
             amts.sort();
             amts.dedup();
             for dir in 0..2u8 {
